@@ -38,7 +38,11 @@ fn add_route(sub: SubApp<()>, pat: &str, kind: &str, cors: &str) -> SubApp<()> {
                 Response::new(StatusCode::OK, req.content.clone().unwrap_or_default())
             } else if k == "m" {
                 Response::empty(StatusCode::OK)
-            } else if let Some(which) = k.strip_prefix('h') {
+            } else if let Some(code) = k.strip_prefix('z') {
+            // a handler may answer a status that usually has no content WITH content: it is framed like any other response
+            let status = match code { "204" => StatusCode::NoContent, "304" => StatusCode::NotModified, "100" => StatusCode::Continue, _ => StatusCode::OK };
+            Response::new(status, format!("z{}", code))
+        } else if let Some(which) = k.strip_prefix('h') {
                 let mut r = Response::new(StatusCode::OK, format!("h{}", which));
                 if which.contains('o') { r = r.with_header(HeaderType::AccessControlAllowOrigin, "https://h.example"); }
                 if which.contains('m') { r = r.with_header(HeaderType::AccessControlAllowMethods, "PATCH"); }
@@ -98,7 +102,11 @@ fn add_default(mut app: App<()>, spec: &str) -> Option<App<()>> {
                         Response::new(StatusCode::OK, req.content.clone().unwrap_or_default())
                     } else if k == "m" {
                         Response::empty(StatusCode::OK)
-                    } else if let Some(which) = k.strip_prefix('h') {
+                    } else if let Some(code) = k.strip_prefix('z') {
+            // a handler may answer a status that usually has no content WITH content: it is framed like any other response
+            let status = match code { "204" => StatusCode::NoContent, "304" => StatusCode::NotModified, "100" => StatusCode::Continue, _ => StatusCode::OK };
+            Response::new(status, format!("z{}", code))
+        } else if let Some(which) = k.strip_prefix('h') {
                         let mut r = Response::new(StatusCode::OK, format!("h{}", which));
                         if which.contains('o') { r = r.with_header(HeaderType::AccessControlAllowOrigin, "https://h.example"); }
                         if which.contains('m') { r = r.with_header(HeaderType::AccessControlAllowMethods, "PATCH"); }
